@@ -43,7 +43,7 @@ non-overlap of allocations beyond the bump discipline.  Borrow witnesses W4-W7/W
 
 ASSUMPTIONS = ['the borrow checker (for caller-provided buffers)', 'libc::iovec / IoSlice layout equality (compile-time assertion in the crate)']
 
-FLOORS = {'R5.1': 35, 'R5.2': 20, 'R5.3': 6, 'R5.4': 7, 'R5.6': 7, 'R5.7': 5, 'R5.8': 10, 'R5.9': 10}
+FLOORS = {'R5.1': 35, 'R5.2': 28, 'R5.3': 6, 'R5.4': 7, 'R5.6': 7, 'R5.7': 5, 'R5.8': 10, 'R5.9': 10}
 
 CRATES = ['owning_iovec', 'hcobs', 'rough_tlv', 'sliding_deque', 'vouched_time']
 
@@ -100,6 +100,24 @@ def r5_2(cx):
                     cx.count_sites()
                     cx.check(not fl['vis'].startswith('Public'), 'field-private:%s.%s' % (short(a['name']), fl['n']), None, '%s:%s' % (a['file'], a['line']),
                              'private field of type %s' % fl['ty'][:60], fail_detail='public field %s.%s : %s' % (a['name'], fl['n'], fl['ty']))
+    # a ConsumingIovec / StableIovec (a raw pointer to the iovec with an unsafe deref inside) lives no longer than the
+    # exclusive borrow it was made from, or than the handle it was converted from
+    for f in sorted(prog.fns.values(), key=lambda f: f.name):
+        if f.crate not in ('owning_iovec', 'hcobs') or f.kind == 'Closure' or f.d.get('derived') or not f.d.get('exported') or f.d.get('unsafe'):
+            continue
+        sig = f.d.get('sig', '')
+        m = re.match(r"(?:for<[^>]*> )?fn\((.*)\) -> (.*)$", sig)
+        if not m:
+            continue
+        params, rets = m.group(1), m.group(2)
+        hl = set(re.findall(r"(?:ConsumingIovec|StableIovec)<'(\w+)>", rets))
+        if not hl:
+            continue
+        cx.count_sites()
+        src = set(re.findall(r"&'(\w+) mut ", params)) | set(re.findall(r"(?:ConsumingIovec|StableIovec)<'(\w+)>", params))
+        bad = sorted(l for l in hl if l not in src)
+        cx.check(not bad, 'handle-tied:' + short(f.name), f, None, "the handle's lifetime %s is that of the &mut borrow (or handle) it comes from" % sorted(hl),
+                 fail_detail="the consumer handle gets lifetime %s, which is not the lifetime of an exclusive borrow in (%s): it can outlive the iovec it points to" % (bad, params[:120]))
     # returned slice data is tied to a borrow of self
     for f in sorted(prog.fns.values(), key=lambda f: f.name):
         if f.crate not in ('owning_iovec', 'hcobs') or f.kind == 'Closure' or f.d.get('derived') or not f.d.get('exported') or f.d.get('unsafe'):
